@@ -245,6 +245,38 @@ def c20 (inp obs : Json) : Res :=
   | none => { agree := agree, specOk := true, why := why, nontrivial := !inconclusive && (stepsOf obs).any fun (_, o) => (libTrace o).any fun e => e.name == "writeBody" }
   | some m => { agree := agree, specOk := false, why := m ++ (if agree then "" else " | " ++ why) }
 
+/-! #### C03 -/
+
+/-- the property's reading: `bto`/`bcc` members of the value and of the typed values in its `object` *property*
+(a member called "object" on a type that has no such property is an uninterpreted extension member) -/
+def rawHidden1 (j : J) : Bool := !noHidden1 facts j
+def rawHiddenDeep (j : J) : Bool := !noHiddenDeep facts j
+
+def c03Step (sin sobs : Json) : Option String :=
+  let evs := libTrace sobs
+  let entry := jstr sin "entry"
+  let receivedId := Val.idGet (toJ (jget (jget sin "body") "v"))
+  let badDelivery := evs.find? fun e =>
+    e.name == "batchDeliver" &&
+    (let p := toJ (e.args.getD 0 Json.null)
+     -- inbox forwarding re-sends the received activity unchanged; that is not an activity of this server's outbox
+     !(entry == "postInbox" && Val.idGet p == receivedId) && rawHidden1 p)
+  match badDelivery with
+  | some e => some s!"payload handed to the transport still carries bto/bcc: {showArgs [e.args.getD 0 Json.null]}"
+  | none =>
+    if entry == "handler" then
+      match evs.find? fun e => e.name == "writeBody" with
+      | some e => if rawHiddenDeep (toJ (e.args.getD 0 Json.null)) then some "the GET handler served a body that still carries bto/bcc along its object chain" else none
+      | none => none
+    else none
+
+def c03 (inp obs : Json) : Res :=
+  let (agree, why, inconclusive) := replayAll inp obs
+  match checkSteps obs c03Step with
+  | none => { agree := agree, specOk := true, why := why,
+              nontrivial := !inconclusive && (stepsOf obs).any fun (_, o) => (libTrace o).any fun e => e.name == "batchDeliver" || e.name == "writeBody" }
+  | some m => { agree := agree, specOk := false, why := m ++ (if agree then "" else " | " ++ why) }
+
 def pubGeneric (_prop : String) (inp obs : Json) : Res :=
   let (agree, why, inconclusive) := replayAll inp obs
   { agree := agree, specOk := true, why := why, nontrivial := !inconclusive }
